@@ -62,7 +62,8 @@ def rand_circuit(rng, labels, length, adjacent, touch_all_first=True):
             ins.append(("rz", [int(q)], float(np.round(rng.uniform(-3, 3), 3))))
     for _ in range(length):
         r = rng.random()
-        if r < 0.25: ins.append(("rz", [int(rng.choice(labels))], float(np.round(rng.uniform(-3, 3), 3))))
+        if r < 0.05: ins.append(("rz", [int(rng.choice(labels))], float(rng.choice([8e-6, -8e-6, 2 * np.pi + 8e-6, -2 * np.pi - 5e-6, 2 * np.pi, 0.0, 4 * np.pi - 3e-6]))))   # next to, and exactly, full turns
+        elif r < 0.25: ins.append(("rz", [int(rng.choice(labels))], float(np.round(rng.uniform(-3, 3), 3))))
         elif r < 0.45: ins.append(("sx", [int(rng.choice(labels))], None))
         elif r < 0.55: ins.append(("x", [int(rng.choice(labels))], None))
         elif r < 0.60: ins.append(("delay", [int(rng.choice(labels))], int(rng.integers(1, 99))))
